@@ -365,6 +365,28 @@ func eqPairs(a, b [][2]string) bool {
 	return true
 }
 
+// checkCommitWait (C13): "a commit timestamp obtained under a commit-wait constraint is strictly greater than the
+// constraint or the call fails" - judged on the commit timestamps transactions really got (2PC: fetched from PD;
+// async commit / 1PC: calculated by the store from the min_commit_ts the client sent), also from the store's records.
+func (c *checker) checkCommitWait() {
+	for _, h := range c.hist {
+		if h.CommitWaitTSO == 0 || h.EndKind != "commit" {
+			continue
+		}
+		id := h.Prog.ID
+		if h.CommitErr == "" && h.CommitTS != 0 && h.CommitTS <= h.CommitWaitTSO {
+			c.fail("C13", "commit-wait-violated", fmt.Sprintf("txn%d", id), "txn %d (%s, causal=%v): Commit succeeded with commit ts %d, which is not above its commit-wait constraint %d", id, modeName(h.Prog), h.Prog.Causal, h.CommitTS, h.CommitWaitTSO)
+		}
+		for k, kt := range c.truth {
+			for _, w := range kt.Writes {
+				if w.StartTS == h.StartTS && w.Kind != kvrpcpb.Op_Rollback && w.CommitTS <= h.CommitWaitTSO {
+					c.fail("C13", "commit-wait-violated", fmt.Sprintf("txn%d", id), "txn %d (%s, causal=%v): key %q carries its commit record at %d, which is not above its commit-wait constraint %d", id, modeName(h.Prog), h.Prog.Causal, k, w.CommitTS, h.CommitWaitTSO)
+				}
+			}
+		}
+	}
+}
+
 // checkC03: 'undetermined' is returned only when a request that could have moved
 // the commit point was sent and its outcome could not be learned.
 func (c *checker) checkC03() {
